@@ -337,18 +337,73 @@ def Contig : List Seg → Nat → Nat → Prop
   | [], a, b => a = b
   | s :: rest, a, b => s.start = a ∧ s.start ≤ s.stop ∧ Contig rest s.stop b
 
-/-- The rows that fired, replayed on the abstract mode stack; an ERROR return resets the mode to
-mode 0 and leaves the stack alone (`Reset()`). -/
+/-- The action pairs of row `(mode, state)` (`[]` if there is no such row). -/
+def rowPairs (modes : Array Mode) (mode : Nat) (state : Int) : List Pair :=
+  match modes[mode]? with
+  | some m =>
+    match decodeRow m state with
+    | some row => row.pairs
+    | none => []
+  | none => []
+
+/-- One ghost event replayed on the abstract mode stack: a row that fired (the row of state
+`state` *in the abstract current mode*) applies its push/pop pairs in order; an ERROR return resets
+the mode to mode 0 and leaves the stack alone (`Reset()` does not clear `modeStack`). -/
+def absStep (modes : Array Mode) : Ev → MS → MS
+  | .fire _ state _ _ _, ms => applyModeActsT (rowPairs modes ms.1 state) ms
+  | .ret (.err _ _) _ _, ms => (0, ms.2)
+  | _, ms => ms
+
 def absRun (modes : Array Mode) : List Ev → MS → MS
   | [], ms => ms
-  | .fire mode state _ _ _ :: rest, ms =>
-    let ps := match modes[mode]? with
-      | some m => match decodeRow m state with
-        | some row => row.pairs
-        | none => []
-      | none => []
-    absRun modes rest (applyModeActsT ps ms)
-  | .ret (.err _ _) _ _ :: rest, ms => absRun modes rest (0, ms.2)
-  | _ :: rest, ms => absRun modes rest ms
+  | ev :: rest, ms => absRun modes rest (absStep modes ev ms)
+
+/-- Walking the log with the abstract mode stack: at every `fire` the abstract current mode is the
+mode whose row fired, and at every `ret` the state machine's `(mode, modeStack)` is the abstract
+one. -/
+def AbsAgrees (modes : Array Mode) : List Ev → MS → Prop
+  | [], _ => True
+  | ev :: rest, ms =>
+    (match ev with
+      | .fire mode _ _ _ _ => ms.1 = mode
+      | .ret _ mo st => absStep modes ev ms = (mo, st)
+      | _ => True) ∧
+    AbsAgrees modes rest (absStep modes ev ms)
+
+/-- The state of the driver after an ERROR token: skip to the next newline, step over it,
+`Reset()`. -/
+def afterError (inp : Input) (l : Lx) : Lx :=
+  let l2 := (skipLine inp (inp.size + 1) l).consume inp
+  { l2 with sm := l2.sm.reset }
+
+/-- The driver's byte offset is the offset of its current rune. -/
+def Sync (inp : Input) (l : Lx) : Prop := l.offset = offsetOf inp l.idx
+
+/-- The mode-action pairs of a written action list, in written order. -/
+def modePairs (ws : List WAction) : List Pair :=
+  (ws.filter (fun w => !w.isTerminal)).map WAction.pair
+
+/-- No row carries an accumulate pair (the specification has no action-less `@frag`). -/
+def noAccum (modes : Array Mode) : Bool :=
+  modes.toList.all fun m =>
+    (List.range (nStates m)).all fun s =>
+      match decodeRow m s with
+      | some row => row.pairs.all fun p => decide (p.1 ≠ 5)
+      | none => true
+
+/-- Specification of `noAccum`. -/
+def NoAccum (modes : Array Mode) : Prop :=
+  ∀ (mi : Nat) (m : Mode), modes[mi]? = some m → ∀ s, s < nStates m →
+    ∀ row, decodeRow m (s : Int) = some row → ∀ p ∈ row.pairs, p.1 ≠ 5
+
+
+/-- The `@emit` test of `fragRulePairs`, named. -/
+def isEmit : WAction → Bool
+  | .emit _ => true
+  | _ => false
+
+/-- The `fire` event written by a `PushRune` call that did not consume. -/
+def fireEv (start : Option Nat) (l : Lx) (res : Res) : Ev :=
+  .fire (l.sm.mode.getD 0) l.sm.state res (start.getD l.offset) l.offset
 
 end Lox.Lex.Rt
